@@ -54,7 +54,7 @@ Example C16_example : unescape_single (esc_single [97; 39; 92; 34; 10; 233]) = S
 Proof. vm_compute. reflexivity. Qed.
 
 (* ---------- from the path text (KeyParse.v, KeyAddr.v) ---------- *)
-From JP Require Import Peg Grammar Tree Actions Eval EvalInv1 EvalInv4 EvalTop KeyDefs KeyParse KeyAddr DecFacts IdxParse SliceParse WildParse RecParse ChainParse ChainAddr.
+From JP Require Import Peg Grammar Tree Actions Eval EvalInv1 EvalInv4 EvalTop KeyDefs KeyParse KeyAddr DecFacts IdxParse SliceParse UnionParse WildParse RecParse ChainParse ChainAddr.
 Local Open Scope N_scope.
 Open Scope list_scope.
 
